@@ -393,6 +393,40 @@ def scen_disabled(ch, params, out):
         out.check(not hit, "disabled_type_in_output", lambda: f"{token} appears in {fw} output although {used} disabled\n{text}", "disabled_type_in_output")
 
 
+def scen_disabled_cli(ch, params, out):
+    """the same through the command line: --disable-str-serializable-types together with / without --datetime"""
+    import json
+    import re
+    from vflib import clienv
+    names = ["int", "float", "bool", "date", "time", "datetime", "IntString", "IsoDateString", "IsoDatetimeString"]
+    mask = ch.pick("disabled_subset", 2 ** 4, shard=True)
+    pool = ["float", "date", "IsoTimeString", "datetime"]
+    disabled = [pool[i] for i in range(4) if mask >> i & 1] + (["int"] if ch.flag("also_int") else [])
+    use_dt = ch.flag("--datetime")
+    fw = ch.choose("framework", ["pydantic", "dataclasses"])
+    order_first = ch.flag("disable_option_before_datetime_option")
+    samples = [{"a": "12", "b": "1.5", "d": "2018-12-31", "e": "12:58:12", "f": "2018-12-31T12:58:12"},
+               {"a": "13", "b": "2.5", "d": "2019-01-01", "e": "13:00:01", "f": "2019-01-01T00:00:00"}]
+    fs = {"/vfs/in.json": json.dumps(samples)}
+    argv = ["-m", "Root", "/vfs/in.json", "-f", fw]
+    dis = (["--disable-str-serializable-types"] + disabled) if disabled else []
+    dt = ["--datetime"] if use_dt else []
+    argv += (dis + dt) if order_first else (dt + dis)
+    res = clienv.run_main(argv, fs)
+    out.info = {"argv": argv}
+    if not out.check(res.status == 0, "cli_fails", lambda: f"{res.stderr[-300:]} argv={argv}", "cli_fails"):
+        return
+    body = res.stdout.split('\n"""\n', 1)[-1]
+    canonical = {"int": ("IntString", "int"), "float": ("FloatString", "float"), "date": ("IsoDateString", "date"), "IsoTimeString": ("IsoTimeString", "time"),
+                 "datetime": ("IsoDatetimeString", "datetime")}
+    fields = body.split("class Root", 1)[-1]
+    for d in disabled:
+        cls_name, actual = canonical[d]
+        token = actual if fw == "pydantic" else cls_name
+        hit = re.search(rf":\s*(Optional\[)?{re.escape(token)}\b", fields)
+        out.check(not hit, "disabled_type_in_output", lambda: f"{token} still used although {d} is disabled (argv={argv})\n{body}", "disabled_type_in_cli_output")
+
+
 # ------------------------------------------------------------------------------------------------ symbolic-string round trip
 def scen_bool_symbolic(ch, params, out):
     from json_to_models.dynamic_typing import BooleanString
@@ -418,6 +452,7 @@ def parts(tier):
         SMT("replaces", "vflib.props.c09:kernel_replaces", {"validation_per_class": 20 if q else 60}, timeout=400, mode="SMT-S"),
         CH("grammar", "vflib.props.c09:scen_grammar", {}, shards=7, timeout=170 if q else 900, path_timeout=30),
         CH("disabled", "vflib.props.c09:scen_disabled", {}, shards=16, timeout=170 if q else 600, path_timeout=30),
+        CH("disabled_cli", "vflib.props.c09:scen_disabled_cli", {}, shards=8, timeout=170 if q else 600, path_timeout=30),
         CH("bool_symbolic", "vflib.props.c09:scen_bool_symbolic", {"maxlen": 5, "maxcp": 127} if q else {"maxlen": 5}, shards=1, timeout=150 if q else 1200, path_timeout=60, mode="CH-P"),
     ]
 
